@@ -14,6 +14,10 @@ int veclen[VMAXV];             /* length of each std::vector<Scalar> object (par
 int __CPROVER_uninterpreted_vecval_resized(int, int);
 #define VEC_RESIZE(a, n) (vecval[a] = __CPROVER_uninterpreted_vecval_resized(vecval[a], n), veclen[a] = (n))
 #define VEC_COPY(dst, src) vf_vec_copy(dst, src)      /* std::vector copy-assignment: contents and length */
+int __CPROVER_uninterpreted_vecval_prefix(int, int);
+/* std::copy(src.begin(), src.end(), dst.begin()): dst keeps its length; its value equals src's only when the lengths agree (a shorter dst is undefined behaviour: obligation) */
+#define VEC_COPY_PREFIX(dst, src) (__CPROVER_assert(veclen[src] <= veclen[dst], "std::copy stays inside the destination vector"), \
+   vecval[dst] = (veclen[dst] == veclen[src] ? vecval[src] : __CPROVER_uninterpreted_vecval_prefix(vecval[src], vecval[dst])))
 static void vf_vec_copy(int dst, int src) { int s_ = src; vecval[dst] = vecval[s_]; veclen[dst] = veclen[s_]; }
 int num_vars, num_vec;
 VMAP_DECLARE(varmap)
